@@ -3,8 +3,8 @@ CONSTANTS
   InitCase <- GInitCase
   BaseNames <- GBaseNames
   N = 5
-  MaxOut = 2
-  KindVecs <- KVFive
+  MaxOut = 1
+  KindVecs <- KVFive2
 INVARIANTS TypeOK MeasureNat TempIsStack EmittedOnce TemporariesEmpty TopoOrder CycleReported
 PROPERTIES Progress
 CHECK_DEADLOCK FALSE
